@@ -143,6 +143,7 @@ func run(r *vk.Run) {
 	cancelDuringSeed(r)
 	mixedSubscribers(r)
 	publishOrder(r)
+	lateSubscriber(r)
 	lossyValue(r)
 	backpressure(r)
 	randomPacing(r)
@@ -640,6 +641,119 @@ func publishOrder(r *vk.Run) {
 		}
 	}
 	r.Require("publish-order-scenarios", 10)
+}
+
+// lateSubscriber: a lossy subscriber attaches while a write is held up by an idle backpressured subscriber and
+// while an earlier subscriber has gone away (cancelled, not yet collected by the bus). Once the slow subscriber
+// drains, the next write must reach the late subscriber: "the subscriber eventually receives the most recent value".
+func lateSubscriber(r *vk.Run) {
+	idx := 0
+	for _, kind := range []string{"value", "collection-updates-only"} {
+		for _, goneBP := range []bool{true, false} {
+			for rep := 0; rep < 2; rep++ {
+				idx++
+				if !r.Mine(idx) {
+					continue
+				}
+				val := resource.NewValue(resource.WithClock(clk{}), resource.WithInitialValue(mkValLocked("")))
+				col := resource.NewCollection(resource.WithClock(clk{}), resource.WithInitialRecord("a", mkValLocked("a")))
+				ctx, cancel := context.WithCancel(context.Background())
+				goneCtx, goneCancel := context.WithCancel(ctx)
+				slow, late := newConsumer(), newConsumer()
+				slow.cancel, late.cancel = cancel, func() {}
+				// registration order matters: the slow subscriber first, the one that will go away after it, so that a
+				// delivery held up by the slow one has not yet looked at the other
+				if kind == "value" {
+					slow.runVal(val.Pull(ctx, resource.WithBackpressure(true), resource.WithUpdatesOnly(true)))
+					vk.Quiesce()
+					_ = val.Pull(goneCtx, resource.WithBackpressure(goneBP), resource.WithUpdatesOnly(true))
+				} else {
+					slow.runCol(col.Pull(ctx, resource.WithBackpressure(true), resource.WithUpdatesOnly(true)))
+					vk.Quiesce()
+					_ = col.Pull(goneCtx, resource.WithBackpressure(goneBP), resource.WithUpdatesOnly(true))
+				}
+				vk.Quiesce()
+				write := func(tag string) *vk.Task {
+					return vk.Go(func() {
+						if kind == "value" {
+							val.Set(mkValLocked(tag))
+						} else {
+							col.Update("a", mkValLocked(tag))
+						}
+					})
+				}
+				// writes pile up behind the idle backpressured subscriber; one of them is in the middle of its Send
+				var ws []*vk.Task
+				for k := 0; k < 3; k++ {
+					ws = append(ws, write(fmt.Sprintf("w%d", k)))
+					vk.Quiesce()
+				}
+				// now the other subscriber goes away, while a delivery is parked at the slow one
+				goneCancel()
+				vk.Quiesce()
+				if kind == "value" {
+					late.runVal(val.Pull(ctx, resource.WithUpdatesOnly(true)))
+				} else {
+					late.runCol(col.Pull(ctx, resource.WithUpdatesOnly(true)))
+				}
+				late.grant(1 << 20)
+				vk.Quiesce()
+				slow.grant(1 << 20)
+				if _, ok := r.MustQuiesce("c09-late-drain"); !ok {
+					slow.stop()
+					return
+				}
+				final := write("final")
+				if _, ok := r.MustQuiesce("c09-late-final"); !ok {
+					slow.stop()
+					return
+				}
+				r.Eval(1)
+				r.Count("late-subscriber-scenarios", 1)
+				r.Distinct(fmt.Sprintf("late|%s|%v", kind, goneBP))
+				stuck := !final.Done()
+				for _, w := range ws {
+					stuck = stuck || !w.Done()
+				}
+				var lastTag string
+				if kind == "value" {
+					late.mu.Lock()
+					if n := len(late.valEv); n > 0 {
+						lastTag = late.valEv[n-1].Value.(*tat).DefaultString
+					}
+					late.mu.Unlock()
+				} else {
+					late.mu.Lock()
+					if n := len(late.colEv); n > 0 {
+						lastTag = late.colEv[n-1].NewValue.(*tat).DefaultString
+					}
+					late.mu.Unlock()
+				}
+				var cur string
+				if kind == "value" {
+					cur = val.Get().(*tat).DefaultString
+				} else {
+					m, _ := col.Get("a")
+					cur = m.(*tat).DefaultString
+				}
+				switch {
+				case stuck:
+					r.Violation("C09/writer-blocked/"+kind+"/late-subscriber", fmt.Sprintf("writes have not returned at the quiescent point although every live subscriber receives\n%s", vk.DescribeGs(vk.LibraryGoroutines(vk.Goroutines(), nil))), map[string]any{"kind": kind, "goneBP": goneBP})
+				case lastTag != cur:
+					r.Violation("C09/last-value/"+kind+"/late-subscriber", fmt.Sprintf("a subscriber that attached while a write was being delivered (a cancelled subscriber was still registered) last received %q; the stored value is %q after a further write that every other subscriber got", lastTag, cur), map[string]any{"kind": kind, "goneBP": goneBP})
+				}
+				slow.stop()
+				late.mu.Lock()
+				late.quit = true
+				late.cond.Broadcast()
+				late.mu.Unlock()
+				if stuck {
+					return
+				}
+			}
+		}
+	}
+	r.Require("late-subscriber-scenarios", 2)
 }
 
 func touchesA(steps []step) bool {
